@@ -54,6 +54,15 @@ def gen_cases(rng, tier):
     grids = {"nr": rng.choice([3, 5, 9, 21, 40]), "nrho": rng.choice([2, 3, 5, 9])} if target == "excel_eam_fs" else None
     model = spec.gen_eam_model(rng, "fs", groute, target=target, unique_density=unique, grids=grids,
                                nspecies=rng.choice([1, 2, 2, 3, 3, 4]), with_forms=not unique)
+    if (i % 12 == 11 or i % 12 == 1) and not unique:
+      # every A->B density written with the SAME form, parameters and first range, the entries differing only in where a
+      # later range takes over (a cut-off per pair: 'as.bornmayer 2 1.5 >=3.0 as.constant 0.01' / '... >=4.5 ...'):
+      # each slot holds its own definition to its end (seeded change C04r10 shared one function among them)
+      cut_ = float(model["tab"]["cutoff"])
+      for j, ent in enumerate(model.get("density") or []):
+        ent[-1] = {"k": "ranges", "parts": [[">=", 0.0, {"k": "form", "name": "bornmayer", "p": [2.0, 1.5]}],
+                                            [">=", round(cut_ * (0.23 + 0.097 * (j % 7)), 6), {"k": "form", "name": "constant", "p": [0.01 * (j + 1)]}]]}
+      model["same_first_range"] = 1
     if i % 12 == 9:
       model = spec.long_labels(rng, model)          # 'Zirconium_a' / 'Zirconium_b': labels alike in their first 8 and 12 characters
     if i % 12 == 7:
